@@ -12,7 +12,7 @@ mod sim {
     pub use crate::simcfg::*;
 }
 mod corpus {
-    pub const NTWINS: u8 = 21;
+    pub const NTWINS: u8 = 23;
 }
 #[path = "../../dst/src/prog.rs"]
 mod prog;
